@@ -84,6 +84,13 @@ theorem trimEnd_append_cons (a : Str) (c : Char) (b : Str) (hc : isWs c = false)
     rw [List.cons_append, trimEnd_cons_of_ne_nil x (by rw [ih]; simp), ih]
     rfl
 
+theorem trimEnd_append_of_ne_nil (a b : Str) (hb : trimEnd b ≠ []) : trimEnd (a ++ b) = a ++ trimEnd b := by
+  induction a with
+  | nil => rfl
+  | cons x xs ih =>
+    rw [List.cons_append, trimEnd_cons_of_ne_nil x (by rw [ih]; simp [hb]), ih]
+    rfl
+
 theorem trimEnd_idem (s : Str) : trimEnd (trimEnd s) = trimEnd s := by
   induction s with
   | nil => rfl
